@@ -708,6 +708,12 @@ func (g *gen) batch(thorough bool, n int, kind string) scenario {
 			ms[i] = g.passthrough(rl)
 		case "sendTx":
 			ms[i] = g.sendTx(rl, thorough)
+		case "local":
+			if g.r.Intn(3) == 0 {
+				ms[i] = g.badMember(rl)
+			} else {
+				ms[i] = g.accounts()
+			}
 		default:
 			ms[i] = g.anyMember(rl, thorough)
 		}
